@@ -346,6 +346,23 @@ fn build_prog(t: &mut Tape) -> (Prog, Vec<&'static str>) {
                 push(&mut p, "end", Kind::Keyword, true, d0);
                 push(&mut p, ")", Kind::Op, false, d0);
             }
+            2 if t.chance(1, 3) => {
+                // literal first, a second literal as call argument followed by word operators
+                let lit2 = mlstr::gen_literal(t);
+                classes.push(lit2.class);
+                push(&mut p, &lit.text, Kind::TextMulti, true, d0);
+                push(&mut p, ".", Kind::Op, false, d0);
+                push(&mut p, "Foo", Kind::Ident, false, d0);
+                push(&mut p, "(", Kind::Op, false, d0);
+                push(&mut p, "Aa", Kind::Ident, false, d0);
+                push(&mut p, ",", Kind::Op, false, d0);
+                push(&mut p, &lit2.text, Kind::TextMulti, false, d0);
+                push(&mut p, ".", Kind::Op, false, d0);
+                push(&mut p, "Lenn", Kind::Ident, false, d0);
+                push(&mut p, *t.pick(&["div", "mod", "and", "shl"]), Kind::Keyword, false, d0);
+                push(&mut p, "Cc", Kind::Ident, false, d0);
+                push(&mut p, ")", Kind::Op, false, d0);
+            }
             3 if t.chance(1, 3) => {
                 // the statement starts with the literal
                 push(&mut p, &lit.text, Kind::TextMulti, true, d0);
